@@ -23,10 +23,10 @@ go build ./... >/dev/null 2>&1 || { echo "$(basename $D): DOES-NOT-BUILD"; exit 
 go vet ./$PKG/ >/dev/null 2>&1 || { echo "$(basename $D): VET-FAILS"; exit 1; }
 if ! go test -vet=off -count=1 ./... > "$S/suite.log" 2>&1; then echo "$(basename $D): EXISTING-SUITE-FAILS"; grep -E "^(FAIL|---)" "$S/suite.log" | head -5; exit 1; fi
 cp "$D/demo_test.go" "$S/repo/$PKG/zz_demo_test.go"
-go test ${RACEFLAG:-} $TAGFLAG -vet=off -count=1 -run 'Demo|Test_?C[0-9][0-9]' ./$PKG/ > "$S/demo_with.log" 2>&1; WITH=$?
+go test ${RACEFLAG:-} $TAGFLAG -vet=off -count=1 -run "${RUNPAT:-Demo|Test_?C[0-9][0-9]}" ./$PKG/ > "$S/demo_with.log" 2>&1; WITH=$?
 git stash -q -- . ':!'"$PKG"'/zz_demo_test.go' 2>/dev/null || git checkout -q -- .
 git checkout -q -- . 2>/dev/null
 cp "$D/demo_test.go" "$S/repo/$PKG/zz_demo_test.go"
-go test ${RACEFLAG:-} $TAGFLAG -vet=off -count=1 -run 'Demo|Test_?C[0-9][0-9]' ./$PKG/ > "$S/demo_without.log" 2>&1; WITHOUT=$?
+go test ${RACEFLAG:-} $TAGFLAG -vet=off -count=1 -run "${RUNPAT:-Demo|Test_?C[0-9][0-9]}" ./$PKG/ > "$S/demo_without.log" 2>&1; WITHOUT=$?
 if [ $WITH -ne 0 ] && [ $WITHOUT -eq 0 ]; then echo "$(basename $D): CONFIRMED (suite passes; demo fails with the change, passes without)"; exit 0; fi
 echo "$(basename $D): NOT-CONFIRMED with=$WITH without=$WITHOUT"; tail -5 "$S/demo_with.log"; tail -5 "$S/demo_without.log"; exit 1
